@@ -132,4 +132,97 @@ theorem alloc_two_disjoint (occ : List Nat) (first n m : Nat) :
 
 example : (allocFile [0, 1, 3, 4, 7] 1 4).1 = [2, 5, 6, 8] := by decide
 
+
+/-! ### deallocating one position of an extent (elem.c fs_deallocate) -/
+
+/-- an extent of the block map: `count` consecutive parity positions from `parityPos` hold the blocks
+    `filePos, filePos+1, …` of one file (elem.c snapraid_extent) -/
+structure Extent where
+  parityPos : Nat
+  filePos : Nat
+  count : Nat
+deriving DecidableEq, Repr
+
+/-- (parity position, block index in the file) pairs of an extent -/
+def Extent.blocks (e : Extent) : List (Nat × Nat) :=
+  (List.range e.count).map fun i => (e.parityPos + i, e.filePos + i)
+
+/-- fs_deallocate of the position `p`: first block, last block, or a split in the middle -/
+def removeAt (e : Extent) (p : Nat) : List Extent :=
+  if p < e.parityPos ∨ e.parityPos + e.count ≤ p then [e]
+  else
+    let k := p - e.parityPos
+    (if k = 0 then [] else [{ parityPos := e.parityPos, filePos := e.filePos, count := k }]) ++
+    (if e.count - k - 1 = 0 then [] else [{ parityPos := p + 1, filePos := e.filePos + k + 1, count := e.count - k - 1 }])
+
+theorem blocks_split (pp fp k n : Nat) :
+    (List.range (k + 1 + n)).map (fun i => (pp + i, fp + i)) =
+      (List.range k).map (fun i => (pp + i, fp + i)) ++ [(pp + k, fp + k)] ++
+        (List.range n).map (fun i => (pp + k + 1 + i, fp + k + 1 + i)) := by
+  rw [List.range_add, List.range_add, List.map_append, List.map_append]
+  simp only [List.range_one, List.map_cons, List.map_nil, Nat.add_zero, List.map_map]
+  congr 1
+  apply List.map_congr_left
+  intro i _
+  simp only [Function.comp]
+  congr 1 <;> omega
+
+/-- **deallocating one position**: whatever the place of `p` in the extent, the remaining extents
+    map exactly the other positions, each to the SAME block of the file as before -/
+theorem removeAt_blocks (e : Extent) (p : Nat) :
+    (removeAt e p).flatMap Extent.blocks = e.blocks.filter (fun b => decide (b.1 ≠ p)) := by
+  unfold removeAt
+  split
+  · rename_i hout
+    simp only [List.flatMap_cons, List.flatMap_nil, List.append_nil]
+    symm
+    apply List.filter_eq_self.mpr
+    intro b hb
+    simp only [Extent.blocks, List.mem_map, List.mem_range] at hb
+    obtain ⟨i, hi, rfl⟩ := hb
+    simp only [decide_eq_true_eq]
+    omega
+  · rename_i hin
+    have hk : p - e.parityPos < e.count := by omega
+    generalize hkk : p - e.parityPos = k at hk
+    have hp : p = e.parityPos + k := by omega
+    obtain ⟨n, hn⟩ : ∃ n, e.count = k + 1 + n := ⟨e.count - k - 1, by omega⟩
+    have hcount : e.count - k - 1 = n := by omega
+    simp only [hcount]
+    have hblocks : e.blocks = (List.range k).map (fun i => (e.parityPos + i, e.filePos + i)) ++ [(e.parityPos + k, e.filePos + k)] ++
+        (List.range n).map (fun i => (e.parityPos + k + 1 + i, e.filePos + k + 1 + i)) := by
+      unfold Extent.blocks; rw [hn]; exact blocks_split _ _ _ _
+    rw [hblocks, List.filter_append, List.filter_append]
+    have h1 : ((List.range k).map (fun i => (e.parityPos + i, e.filePos + i))).filter (fun b => decide (b.1 ≠ p)) =
+        (List.range k).map (fun i => (e.parityPos + i, e.filePos + i)) := by
+      apply List.filter_eq_self.mpr
+      intro b hb
+      simp only [List.mem_map, List.mem_range] at hb
+      obtain ⟨i, hi, rfl⟩ := hb
+      simp only [decide_eq_true_eq]; omega
+    have h2 : ([(e.parityPos + k, e.filePos + k)] : List (Nat × Nat)).filter (fun b => decide (b.1 ≠ p)) = [] := by
+      simp [hp]
+    have h3 : ((List.range n).map (fun i => (e.parityPos + k + 1 + i, e.filePos + k + 1 + i))).filter (fun b => decide (b.1 ≠ p)) =
+        (List.range n).map (fun i => (e.parityPos + k + 1 + i, e.filePos + k + 1 + i)) := by
+      apply List.filter_eq_self.mpr
+      intro b hb
+      simp only [List.mem_map, List.mem_range] at hb
+      obtain ⟨i, hi, rfl⟩ := hb
+      simp only [decide_eq_true_eq]; omega
+    rw [h1, h2, h3, List.append_nil]
+    have hb1 : (if k = 0 then ([] : List Extent) else [{ parityPos := e.parityPos, filePos := e.filePos, count := k }]).flatMap Extent.blocks
+        = (List.range k).map (fun i => (e.parityPos + i, e.filePos + i)) := by
+      split
+      · rename_i h0; subst h0; rfl
+      · simp [Extent.blocks]
+    have hb2 : (if n = 0 then ([] : List Extent) else [{ parityPos := p + 1, filePos := e.filePos + k + 1, count := n }]).flatMap Extent.blocks
+        = (List.range n).map (fun i => (e.parityPos + k + 1 + i, e.filePos + k + 1 + i)) := by
+      split
+      · rename_i h0; subst h0; rfl
+      · simp only [List.flatMap_cons, List.flatMap_nil, List.append_nil, Extent.blocks, hp]
+    rw [List.flatMap_append, hb1, hb2]
+
+/-- the slip of seeded change C10e (second half at `filePos + count`) maps a position to another block -/
+example : (removeAt ⟨10, 0, 5⟩ 12).flatMap Extent.blocks = [(10, 0), (11, 1), (13, 3), (14, 4)] := by decide
+
 end SnapraidVerif.Alloc
